@@ -13,7 +13,7 @@ REPO = os.environ.get("LTV_REPO", "/repo")
 SRC = os.path.join(REPO, "src")
 LEAN = os.environ.get("LTV_LEAN") or os.path.join(VERIF, "lean")
 CACHE = os.path.join(VERIF, ".cache")
-EVID = os.path.join(VERIF, "evidence")
+EVID = os.environ.get("LTV_EVID") or os.path.join(VERIF, "evidence")
 REPLAY = os.path.join(EVID, "replay")
 HARNESS = os.path.join(VERIF, "harness")
 NCPU = os.cpu_count() or 4
